@@ -20,6 +20,11 @@ GETTERS = {"get_changes", "get_changes_added", "get_last_local_change", "get_cha
 
 
 def run(ctx):
+    _run10(ctx)
+    check_scalar_codes(ctx, ctx.facts())
+
+
+def _run10(ctx):
     ctx.level = "proof"
     ctx.decides = ("hash accessor chain ends in the Header.hash field; Header.hash is always chunk::hash(type, data); chunk::hash hashes [type, leb(len)] then data with SHA-256 and returns the digest; "
                    "ChangeHash is constructed only in chunk::hash and the two parsers; AutoCommit's history getters close the pending transaction first.")
@@ -174,3 +179,41 @@ def check_mapper(ctx, f):
             ctx.ob("R12-mapper", k, ok, t["sp"], "mapper.reset() first" if ok else
                    "the shared ActorMapper is handed to the encoder without being reset: actors seen while encoding an earlier change leak into this change's actor table (other_actors), so the rebuilt change has different bytes and a different hash")
     ctx.floor("encoder finish calls receiving the shared mapper", n_fin, 2)
+
+
+def check_scalar_codes(ctx, f):
+    """R12-code: a scalar the format cannot hold is refused where it enters a transaction"""
+    ctx.rule("R12-code", "who-must-check: each entry of TransactionInner that turns a caller's value into ops (local_op, do_insert, splice, mark, batch_create_object, batch_init_root_map) calls its check_scalar / check_action / check_value, and the call dominates every call that builds or records an op (the format has four bits for a value's type code)")
+    TIp = "automerge::transaction::inner::TransactionInner::"
+    ENTRIES = ("local_op", "do_insert", "splice", "mark", "batch_create_object", "batch_init_root_map")
+    CHECKS = ("automerge::transaction::inner::check_scalar", "automerge::transaction::inner::check_action", "automerge::transaction::inner::check_value")
+    BUILD = ("local_map_op", "local_list_op", "insert_local_op", "inner_splice", "do_insert", "local_op", "batch_bfs", "finish", "append", "splice", "push")
+    n = 0
+    for e in ENTRIES:
+        P = [p for p in f.fns if norm_fn(p) == TIp + e]
+        if len(P) != 1:
+            raise facts.AnchorMissing(TIp + e)
+        b = cfg.body(f.fns[P[0]])
+        ctx.analysed_fns.add(P[0])
+        checks = [bi for bi, t in cfg.inlined_calls(f, b) and [(s_, t_) for s_, t_, _o, _a in cfg.inlined_calls(f, b)] if (callee(t) or "") in CHECKS]
+        builds = [(bi, t) for bi, t in b.calls() if ((callee(t) or "").startswith(TIp) or "BatchInsertion::" in (callee(t) or "") or (callee(t) or "").endswith(("OpSet::splice", "Vec::push"))) and (callee(t) or "").split("::")[-1] in BUILD]
+        n += 1
+        # a check made per element of a loop over the values (`for v in &values { check_value(v)?; }`) precedes a build when the
+        # loop's header dominates the build and the build lies after the loop
+        heads = {}
+        for c in checks:
+            for nb, nt in b.calls():
+                if (norm_fn(nt.get("fn")) or "").endswith("Iterator::next") and b.block_dominates(nb, c) and b.can_reach(c, nb):
+                    heads[c] = nb
+
+        def covered(bi):
+            for c in checks:
+                if c == bi or b.block_dominates(c, bi):
+                    return True
+                if c in heads and b.block_dominates(heads[c], bi) and not b.can_reach(bi, c):
+                    return True
+            return False
+        ok = bool(checks) and all(covered(bi) for bi, _ in builds)
+        ctx.ob("R12-code", "%s|value checked before an op is built" % e, ok, b.rec["sp"], "check_* dominates %d op-building calls" % len(builds) if ok else
+               "a caller's scalar reaches the op set without the type-code check: ScalarValue::Unknown with a code above 15 is written as a different value, and the committed change differs from the one rebuilt from the op set")
+    ctx.floor("value-taking entries of TransactionInner", n, 6)
